@@ -72,13 +72,14 @@ def load(f, **options):  # type: (typing.IO, **typing.Any) -> canmatrix.CanMatri
     is_j1939 = False
     db = canmatrix.CanMatrix()
 
-    def frame_by_number(text):  # type: (str) -> typing.Optional[canmatrix.Frame]
-        # description and parameter sections give the identifier number without a usable frame format
+    def frame_by_number(text, frame_format='S'):  # type: (str, str) -> typing.Optional[canmatrix.Frame]
+        # description and parameter sections give the identifier number and the frame format letter (X extended);
+        # files that always say S are still understood: without a frame of that format the number alone decides
         number = int(text) & canmatrix.ArbitrationId.extended_id_mask
-        for candidate in db.frames:
-            if candidate.arbitration_id.id == number:
-                return candidate
-        return None
+        candidates = [candidate for candidate in db.frames if candidate.arbitration_id.id == number]
+        preferred = [candidate for candidate in candidates
+                     if bool(candidate.arbitration_id.extended) == (frame_format.strip() == 'X')]
+        return (preferred or candidates or [None])[0]
 
     mode = ''
     for line in f:
@@ -91,7 +92,7 @@ def load(f, **options):  # type: (typing.IO, **typing.Any) -> canmatrix.CanMatri
             else:
                 (bo_id, tem_s, signal_name, comment) = line.split(' ', 3)
                 comment = comment.replace('"', '').replace(';', '')
-                frame_by_number(bo_id).signal_by_name(
+                frame_by_number(bo_id, tem_s).signal_by_name(
                     signal_name).add_comment(comment)
 
         if mode == 'BUDescription':
@@ -110,7 +111,7 @@ def load(f, **options):  # type: (typing.IO, **typing.Any) -> canmatrix.CanMatri
             else:
                 (bo_id, tem_s, comment) = line.split(' ', 2)
                 comment = comment.replace('"', '').replace(';', '')
-                frame = frame_by_number(bo_id)
+                frame = frame_by_number(bo_id, tem_s)
                 if frame:
                     frame.add_comment(comment)
 
@@ -119,7 +120,7 @@ def load(f, **options):  # type: (typing.IO, **typing.Any) -> canmatrix.CanMatri
                 mode = ''
             else:
                 (bo_id, tem_s, attrib, value) = line.split(',', 3)
-                frame_by_number(bo_id).add_attribute(
+                frame_by_number(bo_id, tem_s).add_attribute(
                     attrib.replace('"', ''),
                     value.replace('"', ''))
 
@@ -143,7 +144,7 @@ def load(f, **options):  # type: (typing.IO, **typing.Any) -> canmatrix.CanMatri
                 mode = ''
             else:
                 (bo_id, tem_s, signal_name, attrib, value) = line.split(',', 4)
-                frame_by_number(bo_id)\
+                frame_by_number(bo_id, tem_s)\
                     .signal_by_name(signal_name)\
                     .add_attribute(attrib.replace('"', ''), value.replace('"', ''))
 
@@ -443,7 +444,7 @@ def dump(mydb, f, **options):
     for frame in db.frames:
         if frame.comment is not None:
             comment = frame.comment.replace("\n", " ")
-            out_str += str(frame.arbitration_id.id) + ' S "' + comment + '";\n'
+            out_str += str(frame.arbitration_id.id) + (' X "' if frame.arbitration_id.extended else ' S "') + comment + '";\n'
 
     out_str += "[END_DESC_MSG]\n"
 
@@ -465,7 +466,7 @@ def dump(mydb, f, **options):
         for signal in frame.signals:
             if signal.comment is not None:
                 comment = signal.comment.replace("\n", " ")
-                out_str += "%d S " % frame.arbitration_id.id + signal.name + ' "' + comment + '";\n'
+                out_str += "%d %s " % (frame.arbitration_id.id, 'X' if frame.arbitration_id.extended else 'S') + signal.name + ' "' + comment + '";\n'
 
     out_str += "[END_DESC_SIG]\n"
     out_str += "[END_DESC]\n\n"
@@ -524,7 +525,7 @@ def dump(mydb, f, **options):
             continue
 
         for attrib, val in sorted(list(frame.attributes.items())):
-            out_str += str(frame.arbitration_id.id) + ',S,"' + attrib + '","' + val + '"\n'
+            out_str += str(frame.arbitration_id.id) + (',X,"' if frame.arbitration_id.extended else ',S,"') + attrib + '","' + val + '"\n'
     out_str += "[END_PARAM_MSG_VAL]\n"
 
     # signal-attributes:
@@ -535,7 +536,7 @@ def dump(mydb, f, **options):
 
         for signal in frame.signals:
             for attrib, val in sorted(list(signal.attributes.items())):
-                out_str += str(frame.arbitration_id.id) + ',S,' + signal.name + \
+                out_str += str(frame.arbitration_id.id) + (',X,' if frame.arbitration_id.extended else ',S,') + signal.name + \
                     ',"' + attrib + '","' + val + '"\n'
     out_str += "[END_PARAM_SIG_VAL]\n"
     out_str += "[END_PARAM_VAL]\n"
